@@ -147,7 +147,7 @@ def geodesicInv (el : Ellipsoid R) (L1 B1 L2 B2 : R) : Coor R :=
     let aacos2 := 1.0 - aasin * aasin
 
     -- cosine of 2 times σ_m, the angular separation from the midpoint to the equator
-    let ssmx2cos := sscos - 2.0 * U1sin * U2sin / aacos2
+    let ssmx2cos := if Scalar.beq aacos2 0.0 then 0.0 else sscos - 2.0 * U1sin * U2sin / aacos2
     let C := (4.0 + f * (4.0 - 3.0 * aacos2)) * f * aacos2 / 16.0
     let llNext := L
       + (1.0 - C)
